@@ -1058,7 +1058,7 @@ fn worker(me: usize, spec: &ExecSpec, region: (usize, usize), out: &mut ThreadOu
                 Reach::Allowed => {
                     // the memory is registered on a VM that already has its program, or first (the
                     // program is then loaded afterwards: the registration must still stand)
-                    let register_first = spec.allowed_split % 2 == 1;
+                    let register_first = (spec.allowed_split as usize + spec.adds.len()) % 2 == 1;
                     let mut vm = rbpf::EbpfVmNoData::new(if register_first { None } else { Some(prog) })?;
                     let a = region.0 as u64;
                     let len = region.1 as u64;
